@@ -415,6 +415,30 @@ theorem ip_iff (s : List Char) :
 theorem ip_accepts_ipv6 (s : List Char) (h : isValidIPv6 s = true) : isValidIP s = true := by
   simp [isValidIP, h]
 
+/-- `is_valid_ipv4(address, strict=False)` (inet_aton form) accepts everything the strict form accepts -/
+theorem ipv4_nonstrict_accepts_strict (s : List Char) (h : isValidIPv4 s = true) : isValidIPv4Aton s = true := by
+  obtain ⟨a, b, c, d, ha, hb, hc, hd, rfl⟩ := (ipv4_accept_iff_canonical s).1 h
+  have hch := lemma_renderQuad_chars a b c d ha hb hc hd
+  have hne : (renderQuad a b c d).isEmpty = false := by
+    unfold renderQuad renderOctet; split <;> simp
+  have hcolon : ':' ∉ renderQuad a b c d := by
+    intro h; rcases hch _ h with h | h <;> revert h <;> decide
+  have hnul : nul ∉ renderQuad a b c d := by
+    intro h; rcases hch _ h with h | h <;> revert h <;> decide
+  simp [isValidIPv4Aton, hne, hcolon, hnul, lemma_aton_quad a b c d ha hb hc hd]
+
+/-- the non-strict form never accepts text with a ':' or a NUL, nor the empty text -/
+theorem ipv4_nonstrict_alphabet (s : List Char) (h : isValidIPv4Aton s = true) : s ≠ [] ∧ ':' ∉ s ∧ nul ∉ s := by
+  unfold isValidIPv4Aton at h
+  refine ⟨?_, ?_, ?_⟩
+  · intro e; subst e; simp at h
+  · intro hm; simp [hm] at h
+  · intro hm; simp [hm] at h
+
+example : isValidIPv4Aton "10".toList = true ∧ isValidIPv4 "10".toList = false := by decide +kernel
+example : isValidIPv4Aton "127.0.0.01".toList = true ∧ isValidIPv4 "127.0.0.01".toList = false := by decide +kernel
+example : isValidIPv4Aton "1.2.3.256".toList = false := by decide +kernel
+
 /-- every canonical dotted quad is a valid IP (through the inet_aton path) -/
 theorem ip_accepts_canonical_ipv4 (a b c d : Nat) (ha : a < 256) (hb : b < 256) (hc : c < 256) (hd : d < 256) :
     isValidIP (renderQuad a b c d) = true := by
